@@ -3,5 +3,6 @@ CONSTANTS
   Regions <- RegQuick
   RiDigits <- RiQuick
   PlmnMccs <- AllMcc
+  Deep = FALSE
 INVARIANTS Laws
 CHECK_DEADLOCK FALSE
